@@ -51,7 +51,7 @@ func loadMined() {
 	for k, u := range m {
 		var f int
 		var style string
-		if _, err := fmt.Sscanf(k, "%d/%s", &f, &style); err != nil || len(u) != 6 {
+		if _, err := fmt.Sscanf(k, "%d/%s", &f, &style); err != nil || len(u) != 10 {
 			continue
 		}
 		if universeOK(f, u) {
@@ -80,11 +80,20 @@ func capShare(b, want int) int {
 // universeOK checks the collision structure the TLC universe prescribes.
 func universeOK(fanout int, u []string) bool {
 	b := bits.TrailingZeros(uint(fanout))
-	d := make([][]int, 6)
+	d := make([][]int, 10)
 	for i := range u {
 		d[i] = digitsOf(u[i], b)
 	}
-	if d[0][0] == d[2][0] || d[0][0] == d[4][0] || d[2][0] == d[4][0] {
+	// name 10 is a proper suffix of name 9 and falls into the same root bucket, away from the other groups
+	if !strings.HasSuffix(u[8], u[9]) || len(u[9]) >= len(u[8]) || d[8][0] != d[9][0] ||
+		d[8][0] == d[0][0] || d[8][0] == d[2][0] || d[8][0] == d[4][0] {
+		return false
+	}
+	// names 7 and 8 branch off the deep chain of names 5/6 after one and two levels
+	if shareLen(d[4], d[6]) != 1 || shareLen(d[4], d[7]) != capShare(b, 2) || shareLen(d[5], d[7]) != capShare(b, 2) {
+		return false
+	}
+	if d[0][0] == d[2][0] || d[0][0] == d[4][0] || d[2][0] == d[4][0] || d[0][0] >= 16 {
 		return false
 	}
 	return shareLen(d[0], d[1]) == capShare(b, 1) && shareLen(d[2], d[3]) == capShare(b, 2) && shareLen(d[4], d[5]) == capShare(b, 3)
@@ -118,16 +127,69 @@ func mineUniverse(fanout int, style string) []string {
 			return d[k] != base[k]
 		}
 	}
-	u := make([]string, 6)
-	u[0] = find(func(d []int) bool { return true })
+	u := make([]string, 10)
+	// name 1 sits in a low root bucket (index < 16): at fanouts 512/1024 its hex prefix needs two padding zeros
+	u[0] = find(func(d []int) bool { return d[0] < 16 })
 	d0 := digitsOf(u[0], b)
 	u[1] = find(share(d0, capShare(1)))
 	u[2] = find(func(d []int) bool { return d[0] != d0[0] })
 	d2 := digitsOf(u[2], b)
 	u[3] = find(share(d2, capShare(2)))
-	u[4] = find(func(d []int) bool { return d[0] != d0[0] && d[0] != d2[0] })
+	// link order variants (one per name style): whether the value links of names 7 / 8 sort before or after
+	// the child-shard link of the deep chain in their shard - the iterator's behaviour on a missing child shard
+	// depends on whether that shard is the last link of its parent
+	variant := 0
+	for i, st := range []string{"plain", "unicode", "hexish", "space"} {
+		if st == style {
+			variant = i
+		}
+	}
+	f1 := 1 << uint(b)
+	u[4] = find(func(d []int) bool {
+		return d[0] != d0[0] && d[0] != d2[0] && d[1] > 0 && d[1] < f1-1 && d[2] > 0 && d[2] < f1-1
+	})
 	d4 := digitsOf(u[4], b)
 	u[5] = find(share(d4, capShare(3)))
+	u[6] = find(func(d []int) bool {
+		if shareLen(d, d4) != 1 {
+			return false
+		}
+		if variant&1 == 0 {
+			return d[1] < d4[1]
+		}
+		return d[1] > d4[1]
+	})
+	d5 := digitsOf(u[5], b)
+	u[7] = find(func(d []int) bool {
+		if shareLen(d, d4) != capShare(2) || shareLen(d, d5) != capShare(2) {
+			return false
+		}
+		k := capShare(2)
+		if variant&2 == 0 {
+			return d[k] < d4[k]
+		}
+		return d[k] > d4[k]
+	})
+	// a member / probe pair: the probe is a proper suffix of the member and hashes into the same root bucket
+	for {
+		probe := nameTemplate(style, next)
+		next++
+		dp := digitsOf(probe, b)
+		if dp[0] == d0[0] || dp[0] == d2[0] || dp[0] == d4[0] {
+			continue
+		}
+		found := false
+		for j := 0; j < 4*fanout && !found; j++ {
+			member := fmt.Sprintf("%c%d.", 'k'+rune(j%7), j) + probe
+			if digitsOf(member, b)[0] == dp[0] {
+				u[8], u[9] = member, probe
+				found = true
+			}
+		}
+		if found {
+			break
+		}
+	}
 	mineCache[k] = u
 	return u
 }
@@ -241,6 +303,14 @@ func init() {
 					}
 				}
 				out = append(out, s)
+				// with the two names that branch off the deep chain (a shard with several child shards)
+				if m%4 == 3 || m >= 48 {
+					out = append(out, append(append([]int(nil), s...), 7, 8))
+				}
+				// with the member whose proper suffix (name 10, never a member here) hashes into the same bucket
+				if m%8 == 1 || m == 0 || m == 63 {
+					out = append(out, append(append([]int(nil), s...), 9))
+				}
 			}
 			return out
 		}
@@ -263,7 +333,7 @@ func init() {
 							}
 							dc := &DirCase{Fam: "dir", ID: fmt.Sprintf("sets-%d-%v-%d-%s", f, s, oi, bld), Builder: bld, Fanout: f,
 								Universe: u, Entries: ord, Links: links(ord), Open: "reify", Mode: "sets",
-								Script: fullDirScript(6, allHows)}
+								Script: fullDirScript(10, allHows)}
 							if err := runDirCase(dc, tr); err != nil {
 								return err
 							}
@@ -281,7 +351,7 @@ func init() {
 					}
 					dc := &DirCase{Fam: "dir", ID: fmt.Sprintf("boxo-%d-%v", f, s), Builder: "boxo", Fanout: f,
 						Universe: u, Entries: s, Links: links(s), Open: "reify", Mode: "sets",
-						Script: fullDirScript(6, []string{"string", "native"})}
+						Script: fullDirScript(10, []string{"string", "native"})}
 					if err := runDirCase(dc, tr); err != nil {
 						return err
 					}
@@ -298,7 +368,7 @@ func init() {
 				f := fl[i%len(fl)]
 				u := mineUniverse(f, styles[i%len(styles)])
 				dc := &DirCase{Fam: "dir", ID: fmt.Sprintf("hist-%d-%d", f, i), Builder: "boxo", Fanout: f, Universe: u,
-					Hist: hist, Open: "reify", Mode: "hist", Script: fullDirScript(6, []string{"string"})}
+					Hist: hist, Open: "reify", Mode: "hist", Script: fullDirScript(10, []string{"string"})}
 				i++
 				return runDirCase(dc, tr)
 			})
@@ -338,8 +408,8 @@ func init() {
 								}
 								dc.Script = [][]any{{"length"}, {"iter", "map"}}
 							} else {
-								dc.Script = append(fullDirScript(6, []string{"string", "native"}), []any{"reopen"}, []any{"length"},
-									[]any{"iter", "map"}, []any{"lookup", 1, "string"}, []any{"lookup", 4, "string"}, []any{"lookup", 6, "string"})
+								dc.Script = append(fullDirScript(10, []string{"string", "native"}), []any{"reopen"}, []any{"length"},
+									[]any{"iter", "map"}, []any{"lookup", 1, "string"}, []any{"lookup", 4, "string"}, []any{"lookup", 6, "string"}, []any{"lookup", 7, "string"}, []any{"lookup", 8, "string"})
 							}
 							if err := runDirCase(dc, tr); err != nil {
 								return err
